@@ -563,56 +563,71 @@ def slices (a : Nat) (bounds : List (Nat × Nat)) : Cmd (Except PyErr (List Nat)
   let _ ← obsS a
   slicesLoop a bounds
 
+/-- `x + y` or `y + x` -/
+def addEither (left : Bool) (a b : Nat) : Cmd Nat := if left then add a b else add b a
+
+/-- `ljust` / `rjust` without fillchar, `toAdd = " " * (width - len(self.s))`, `sh = self.shared_atts`:
+    `self + fmtstr(to_add, bg=shared["bg"]) if to_add else self` when the runs share a background, else
+    `uniform = self.new_with_atts_removed("bg")`, `uniform + fmtstr(to_add, **shared) if to_add else uniform`
+    (mirrored for `rjust`). The result can be `self` itself. -/
+def justPlain (left : Bool) (a : Nat) (toAdd : Text) (sh : Atts) : Cmd Nat :=
+  if sh.bg.isSome then
+    if toAdd.isEmpty then pure a
+    else do
+      let p ← fmtstrOfStr toAdd { bg := sh.bg }
+      addEither left a p
+  else do
+    let uniform ← nwar a [.bg]
+    if toAdd.isEmpty then pure uniform
+    else do
+      let p ← fmtstrOfStr toAdd sh
+      addEither left uniform p
+
 /-- `ljust` / `rjust`. `fill = some t`: a fillchar was given and `t` is `self.s.ljust(width, fillchar)`
-    (data). `shared` is `self.shared_atts` (data; IndexError on `FmtStr()`). -/
+    (data), the result is `fmtstr(t, **self.shared_atts)`. `shared` is `self.shared_atts` (data;
+    IndexError on `FmtStr()`). -/
 def just (left : Bool) (a : Nat) (width : Int) (fill : Option Text) (shared : Except PyErr Atts) :
     Cmd (Except PyErr Nat) := do
   let t ← obsS a
-  match fill with
-  | some res =>
-    match shared with
-    | .error e => pure (.error e)
-    | .ok sh => do
+  match shared with
+  | .error e => pure (.error e)
+  | .ok sh =>
+    match fill with
+    | some res => do
       let r ← fmtstrOfStr res sh
       pure (.ok r)
-  | none =>
-    let toAdd := spaces (width - t.length).toNat       -- " " * (width - len(self.s))
-    match shared with
-    | .error e => pure (.error e)
-    | .ok sh =>
-      if sh.bg.isSome then
-        if toAdd.isEmpty then pure (.ok a)              -- … else self
-        else do
-          let p ← fmtstrOfStr toAdd { bg := sh.bg }
-          let r ← if left then add a p else add p a
-          pure (.ok r)
-      else do
-        let uniform ← nwar a [.bg]
-        if toAdd.isEmpty then pure (.ok uniform)        -- … else uniform
-        else do
-          let p ← fmtstrOfStr toAdd sh
-          let r ← if left then add uniform p else add p uniform
-          pure (.ok r)
+    | none => do
+      let r ← justPlain left a (spaces (width - t.length).toNat) sh
+      pure (.ok r)
 
-/-- Mirror of `wasChunkLoop` (Model/Width.lean) on parts: the whole-run case reuses the chunk object. -/
+/-- Mirror of `wasChunkPart` (Model/Width.lean) on parts: what one chunk appends to `parts`; the
+    whole-run case reuses the chunk object. -/
+def wasPart (u : UEnv) (start stop counter : Int) (id : Nat) (c : Chunk) (cw : Int) : Except PyErr (List Part) :=
+  if start < counter + cw ∧ stop > counter then
+    let st := max 0 (start - counter)
+    let en := min (stop - counter) cw
+    if en - st = cw then .ok [Part.shared id c]
+    else
+      match widthAwareSliceStr u c.s (max 0 (start - counter)) (stop - counter) with
+      | .error e => .error e
+      | .ok sPart => .ok [Part.fresh ⟨sPart, c.atts⟩]
+  else .ok []
+
+/-- Mirror of `wasChunkLoop` (Model/Width.lean) on parts; `counter` is the running variable. -/
 def wasParts (u : UEnv) (start stop : Int) : Int → List (Nat × Chunk) → Except PyErr (List Part)
   | _, [] => .ok []
-  | counter, (id, c) :: rest => do
-    let cw ← chunkWidth u c
-    let part : List Part ←
-      if start < counter + cw ∧ stop > counter then
-        let st := max 0 (start - counter)
-        let en := min (stop - counter) cw
-        if en - st = cw then pure [Part.shared id c]
-        else do
-          let sPart ← widthAwareSliceStr u c.s (max 0 (start - counter)) (stop - counter)
-          pure [Part.fresh ⟨sPart, c.atts⟩]
-      else pure []
-    let counter' := counter + cw
-    if stop < counter' then pure part
-    else do
-      let r ← wasParts u start stop counter' rest
-      pure (part ++ r)
+  | counter, (id, c) :: rest =>
+    match chunkWidth u c with
+    | .error e => .error e
+    | .ok cw =>
+      match wasPart u start stop counter id c cw with
+      | .error e => .error e
+      | .ok part =>
+        if stop < counter + cw then .ok part            -- break
+        else
+          match wasParts u start stop (counter + cw) rest with
+          | .error e => .error e
+          | .ok r => .ok (part ++ r)
 
 /-- `a.width_aware_slice(idx)` -/
 def widthAwareSlice (u : UEnv) (a : Nat) (idx : Index) : Cmd (Except PyErr Nat) := do
@@ -641,6 +656,9 @@ def waslLine (col : Nat) : List Chunk → Cmd Unit
     listAppend col id
     waslLine col cs
 
+/-- `if width_of_line == columns: del chunks_of_line[:]` (`full` says whether the test held) -/
+def clearIf (full : Bool) (col : Nat) : Cmd Unit := if full then listClear col else pure ()
+
 /-- the generator body of `_width_aware_splitlines`, one iteration per yielded line:
     `yield FmtStr(*chunks_of_line)` (which copies the list) and then, for a line that filled the columns,
     `del chunks_of_line[:]` on the SAME local list. -/
@@ -650,7 +668,7 @@ def waslLoop (col : Nat) : List (List Chunk × Bool) → Cmd (List Nat)
     waslLine col line
     let cs ← getList col
     let r ← mkFmt cs
-    if full then listClear col
+    clearIf full col
     let rs ← waslLoop col rest
     pure (r :: rs)
 
